@@ -473,6 +473,18 @@ func (x *Exec) specCall(n *ast.CallExpr, env *specEnv, reach Term) Val {
 		case "mi":
 			v := x.evalSpec(n.Args[0], env, reach)
 			return Val{MI: true, L: []Term{x.toMI(v)}}
+		case "lastrecv":
+			// lastrecv(ch): the value most recently received from the channel parameter ch
+			// of the function under verification (ghost history of the channel)
+			id, ok := n.Args[0].(*ast.Ident)
+			if !ok {
+				specFail("lastrecv(): argument must be a channel parameter name")
+			}
+			v, ok := env.st.ghost["recv$"+id.Name]
+			if !ok {
+				specFail("lastrecv(%s): no such channel parameter", id.Name)
+			}
+			return v
 		case "visited":
 			// visited(k): k was already delivered by the (single) map iteration of this function
 			if len(x.visited) != 1 {
@@ -502,6 +514,10 @@ func (x *Exec) specCall(n *ast.CallExpr, env *specEnv, reach Term) Val {
 				return Val{T: types.Typ[types.Int], L: []Term{v.L[1]}}
 			case *types.Basic:
 				return Val{T: types.Typ[types.Int], L: []Term{x.c.App("strlen", SBV(64), v.L[0])}}
+			case *types.Map:
+				// the same uninterpreted function the code's len(m) uses
+				n := x.c.App("maplen_"+typeKey(v.T), SBV(64), v.L[0], x.mapHasArr(env.st, v.T))
+				return Val{T: types.Typ[types.Int], L: []Term{n}}
 			}
 			specFail("len of %v unsupported in spec", v.T)
 		case "ite":
